@@ -2651,33 +2651,27 @@ func (m *machine) lowerFcopysign(instr *ssa.Instruction) {
 	rn := m.getOperand_Reg(yDef)
 	rd := m.c.VRegOf(instr.Return())
 
-	// Clear the non-sign bits of src via AND with the mask.
-	var opAnd, opOr sseOpcode
+	// Only one register (tmp) is modified in place below, and every instruction of the sequence uses it, so that the
+	// register allocator never has to reload a value that was changed after it was spilled at its definition:
+	//
+	//	tmp = y; tmp ^= x; tmp &= signMask; tmp ^= x  ==>  x with the sign bit of y.
+	var opAnd, opXor sseOpcode
 	var signMask uint64
 	if _64 {
-		signMask, opAnd, opOr = 0x8000000000000000, sseOpcodeAndpd, sseOpcodeOrpd
+		signMask, opAnd, opXor = 0x8000000000000000, sseOpcodeAndpd, sseOpcodeXorpd
 	} else {
-		signMask, opAnd, opOr = 0x80000000, sseOpcodeAndps, sseOpcodeOrps
+		signMask, opAnd, opXor = 0x80000000, sseOpcodeAndps, sseOpcodeXorps
 	}
 
 	signBitReg := m.c.AllocateVReg(x.Type())
 	m.lowerFconst(signBitReg, signMask, _64)
-	nonSignBitReg := m.c.AllocateVReg(x.Type())
-	m.lowerFconst(nonSignBitReg, ^signMask, _64)
 
-	// Extract the sign bits of rn.
-	and := m.allocateInstr().asXmmRmR(opAnd, rn, signBitReg)
-	m.insert(and)
+	tmp := m.copyToTmp(rn.reg())
+	m.insert(m.allocateInstr().asXmmRmR(opXor, rm, tmp))
+	m.insert(m.allocateInstr().asXmmRmR(opAnd, newOperandReg(signBitReg), tmp))
+	m.insert(m.allocateInstr().asXmmRmR(opXor, rm, tmp))
 
-	// Clear the sign bit of dst via AND with the non-sign bit mask.
-	xor := m.allocateInstr().asXmmRmR(opAnd, rm, nonSignBitReg)
-	m.insert(xor)
-
-	// Copy the sign bits of src to dst via OR.
-	or := m.allocateInstr().asXmmRmR(opOr, newOperandReg(signBitReg), nonSignBitReg)
-	m.insert(or)
-
-	m.copyTo(nonSignBitReg, rd)
+	m.copyTo(tmp, rd)
 }
 
 func (m *machine) lowerBitcast(instr *ssa.Instruction) {
